@@ -73,6 +73,17 @@ def conds_CodecProto_WriteNext : List String := [
    "return w.Write(b)"
   ]
 
+def stmts_CodecProto_WriteNext : List String := [
+   "{",
+   "var sizeArr [binary.MaxVarintLen64]byte",
+   "sizeBuf := protowire.AppendVarint(sizeArr[:0], uint64(len(b)))",
+   "if _, err := w.Write(sizeBuf); err != nil {",
+   "return 0, err",
+   "}",
+   "return w.Write(b)",
+   "}"
+  ]
+
 def conds_CodecJSON_ReadNext : List String := [
    "func (CodecJSON) ReadNext(b []byte, r io.Reader, limit int) ([]byte, int, error)",
    "for i := 0; i < int(limit); i++",
@@ -152,6 +163,12 @@ def conds_CodecJSON_WriteNext : List String := [
    "return w.Write(b)"
   ]
 
+def stmts_CodecJSON_WriteNext : List String := [
+   "{",
+   "return w.Write(b)",
+   "}"
+  ]
+
 def conds_codecHTTPBody_ReadNext : List String := [
    "func (codecHTTPBody) ReadNext(b []byte, r io.Reader, limit int) ([]byte, int, error)",
    "for total < limit",
@@ -193,6 +210,25 @@ def conds_growcap : List String := [
    "return newcap"
   ]
 
+def stmts_growcap : List String := [
+   "{",
+   "if wantcap > oldcap*2 {",
+   "newcap = wantcap",
+   "} else if oldcap < 1024 {",
+   "newcap = oldcap * 2",
+   "} else {",
+   "newcap = oldcap",
+   "for 0 < newcap && newcap < wantcap {",
+   "newcap += newcap / 4",
+   "}",
+   "if newcap <= 0 {",
+   "newcap = wantcap",
+   "}",
+   "}",
+   "return newcap",
+   "}"
+  ]
+
 def conds_muxOptions_readAll : List String := [
    "func (*muxOptions) readAll(b []byte, r io.Reader) ([]byte, error)",
    "for",
@@ -201,6 +237,26 @@ def conds_muxOptions_readAll : List String := [
    "return nil, fmt.Errorf(\"max receive message size reached\")",
    "if err != nil",
    "return b, err"
+  ]
+
+def stmts_muxOptions_readAll : List String := [
+   "{",
+   "var total int64",
+   "for {",
+   "if len(b) == cap(b) {",
+   "b = append(b, 0)[:len(b)]",
+   "}",
+   "n, err := r.Read(b[len(b):cap(b)])",
+   "b = b[:len(b)+n]",
+   "total += int64(n)",
+   "if total > int64(o.maxReceiveMessageSize) {",
+   "return nil, fmt.Errorf(\"max receive message size reached\")",
+   "}",
+   "if err != nil {",
+   "return b, err",
+   "}",
+   "}",
+   "}"
   ]
 
 def conds_streamHTTP_readMsg : List String := [
